@@ -40,7 +40,7 @@ TraceInit ==
     /\ l = 1 /\ verdict = "ok" /\ failAt = 0 /\ driftAt = 0
     /\ fs = InitFS /\ idx = EmptyIdx /\ head = {} /\ hasHead = FALSE
     /\ prot = [ntfs |-> Traces[tid].prot.ntfs, hfs |-> Traces[tid].prot.hfs]
-    /\ n = 0 /\ out = [op |-> "init", res |-> "ok"] /\ esc = FALSE
+    /\ n = 0 /\ out = [op |-> "init", res |-> "ok", lp |-> {}] /\ esc = FALSE
 
 Strict(e) ==
     /\ Step(e.op, TreeOf(e.tree))
@@ -51,7 +51,7 @@ Strict(e) ==
 Generic(e) ==
     LET T == TreeOf(e.tree) IN
     /\ fs' = FsOf(e.fs) /\ idx' = IdxOf(e.idx)
-    /\ out' = [op |-> e.op, res |-> e.res]
+    /\ out' = [op |-> e.op, res |-> e.res, lp |-> out.lp]
     /\ head' = IF e.op \in {"CL", "RH", "RM"} \/ (e.op \in {"CO", "COF"} /\ e.res = "ok") THEN T ELSE head
     /\ hasHead' = (hasHead \/ e.op \in {"CL", "RH", "RM"} \/ (e.op \in {"CO", "COF"} /\ e.res = "ok"))
     /\ n' = n + 1
